@@ -40,13 +40,13 @@ def GatesOpen (cfg : Cfg) (i : In) (master : String) : Prop :=
 /-- an automatic failover request is filed only if every gate is open -/
 theorem failover_filed_only_if (cfg : Cfg) (i : In)
     (h : Step.issueFailover ∈ (stateManager cfg i).steps) :
-    i.connected = true ∧ i.lockHeld = true ∧ ∃ master, i.master = some master ∧ GatesOpen cfg i master := by
-  sorry
+    i.connected = true ∧ i.lockHeld = true ∧ ∃ master, i.master = some master ∧ GatesOpen cfg i master :=
+  ManagerLemmas.issueFailover_gates cfg i h
 
 /-- the request is filed at most once per iteration and nothing is done after it -/
 theorem filed_last (cfg : Cfg) (i : In) (h : Step.issueFailover ∈ (stateManager cfg i).steps) :
-    ∃ pre, (stateManager cfg i).steps = pre ++ [Step.issueFailover] ∧ Step.issueFailover ∉ pre := by
-  sorry
+    ∃ pre, (stateManager cfg i).steps = pre ++ [Step.issueFailover] ∧ Step.issueFailover ∉ pre :=
+  ManagerLemmas.issueFailover_last cfg i h
 
 /-- the process-local failure clock: after an iteration that reaches the health test the timer is
 unset iff the record was good, and otherwise keeps the time of the FIRST bad evaluation -/
@@ -61,14 +61,14 @@ def ReachesHealthTest (i : In) : Prop :=
 
 theorem timer_step (cfg : Cfg) (i : In) (master : String) (md : NodeState)
     (hr : ReachesHealthTest i) (hm : i.master = some master) (hd : i.dcs.get? master = some md) :
-    (stateManager cfg i).failedAt = tickTimer (!md.pingOk || md.isFsReadonly) i.now i.failedAt := by
-  sorry
+    (stateManager cfg i).failedAt = tickTimer (!md.pingOk || md.isFsReadonly) i.now i.failedAt :=
+  ManagerLemmas.timer_step cfg i master md hr hm hd
 
 /-- an iteration that does not reach the health test leaves the timer alone -/
 theorem timer_untouched (cfg : Cfg) (i : In)
     (h : i.connected = false ∨ i.lockHeld = false ∨ i.dcsStateErr = true ∨ i.master = none ∨ i.activeNodesErr = true) :
-    (stateManager cfg i).failedAt = i.failedAt := by
-  sorry
+    (stateManager cfg i).failedAt = i.failedAt :=
+  ManagerLemmas.timer_untouched cfg i h
 
 /-- history: over any sequence of evaluations `(now_k, bad_k)` by one process the timer holds the time
 of an evaluation `j` such that every evaluation from `j` on was bad and the one before `j` (if any)
@@ -78,8 +78,8 @@ theorem failure_clock_history (obs : List (Int × Bool)) (t0 : Option Int) :
     (t = none ↔ (obs = [] ∧ t0 = none) ∨ ∃ pre o, obs = pre ++ [o] ∧ o.2 = false) ∧
     (∀ x, t = some x → (∀ o ∈ obs, o.2 = true) ∧ t0 = some x ∨
       ∃ pre o post, obs = pre ++ o :: post ∧ o.1 = x ∧ o.2 = true ∧ (∀ p ∈ post, p.2 = true) ∧
-        ((pre = [] ∧ t0 = none) ∨ ∃ pre' q, pre = pre' ++ [q] ∧ q.2 = false)) := by
-  sorry
+        ((pre = [] ∧ t0 = none) ∨ ∃ pre' q, pre = pre' ++ [q] ∧ q.2 = false)) :=
+  ManagerLemmas.failure_clock_history obs t0
 
 /-- A manager that cannot reach the master while the master's own health record is good files
 nothing and performs no repair in that iteration. -/
@@ -87,8 +87,8 @@ theorem suspicious_master_inert (cfg : Cfg) (i : In) (master : String) (cm md : 
     (hm : i.master = some master) (hc : i.cs.get? master = some cm) (hd : i.dcs.get? master = some md)
     (hunreach : cm.pingOk = false) (hgood : md.pingOk = true ∧ md.isFsReadonly = false) :
     ∀ s ∈ (stateManager cfg i).steps,
-      s ≠ .issueFailover ∧ s ≠ .repairOffline ∧ s ≠ .repairCluster ∧ s ≠ .updateActiveNodes ∧ s ≠ .syncOptimization := by
-  sorry
+      s ≠ .issueFailover ∧ s ≠ .repairOffline ∧ s ≠ .repairCluster ∧ s ≠ .updateActiveNodes ∧ s ≠ .syncOptimization :=
+  ManagerLemmas.suspicious_master_inert cfg i master cm md hm hc hd hunreach hgood
 
 -- non-vacuity: a dead master with a quorum of alive replicas, delay elapsed ⇒ filed
 private def cfg0 : Cfg := ⟨true, 30, 3600, false, true, 1, 1800, 60⟩
